@@ -2605,6 +2605,7 @@ class QuicConnection:
         if (
             self._is_client
             and not self._retry_count
+            and self._state == QuicConnectionState.FIRSTFLIGHT
             and header.destination_cid == self.host_cid
             and header.integrity_tag
             == get_retry_integrity_tag(
